@@ -10,7 +10,7 @@ TEXT = {
  "C03": "Bounded model checking of ExpressionExecutionEngine::evaluate per operator family and operand-variant shape with fully symbolic payloads (all i64, all f64 bit patterns ...): the solver decides the documented meaning (exact-or-error integer arithmetic, IEEE REAL addition / subtraction, NULL rules, comparisons by value, IS, AND/OR, IN/NOT IN, unary operators, abs, subscripts, INTERVAL cast) for every operand value inside the bound; and of SelectExecutionEngine::execute for one projection: exactly one row, under the projection's name, iff the WHERE value is TRUE.",
  "C04": "Bounded model checking of the real per-group fold kernels (GroupAggregator) under the engine's driver protocol: SUM / AVG / BOOL_AND / BOOL_OR over 3 rows with concrete NULL patterns and symbolic values, PERCENTILE over one value and over all-NULL groups, equal the value by definition. Fold level only: the group table, VARIANCE / STDDEV and PERCENTILE over 2+ values are outside the claim.",
  "C06": "One inductive step from an arbitrary engine state, decided by the solver: a non-admitted row reaches no engine, emits nothing and moves no counter on all six dispatch paths (SELECT / aggregate follow / aggregate batch, each with and without JOIN). The admission rule of TableDefinition::extract is decided for tables of two columns (each NULL or DEFAULT, NOT NULL flags symbolic).",
- "C07": "One inductive step of LIMIT accounting from every reachable counter state (n and rows-so-far any u8): never more than n rows, emitted rows are a prefix of the engine's output, reached_limit exactly when n rows are out; final aggregate table cut to n; and on the real select engine: a DISTINCT duplicate does not use up the LIMIT (rows x, x, y under LIMIT 2).",
+ "C07": "One inductive step of LIMIT accounting from every reachable counter state (n and rows-so-far any u8): never more than n rows, emitted rows are a prefix of the engine's output, reached_limit exactly when n rows are out; final aggregate table cut to n; thorough tier adds the real select engine: a DISTINCT duplicate does not use up the LIMIT (rows x, x, y under LIMIT 2).",
  "C08": "Bounded model checking of the real SelectExecutionEngine::execute with DISTINCT over 2-3 rows of one column (any INT / REAL / BOOL / NULL / 1-byte TEXT): a row is emitted exactly when no earlier row has the same value (NULL = NULL, -0.0 = 0.0, NaN = NaN), surviving rows unchanged; composed with C16's 'equal values hash equally'. Multi-column tuples and the aggregate path are outside the claim.",
  "C09": "Union of CBMC's automatic panic / overflow / bounds / unwrap checks over the evaluator's integer kernels, the aggregate folds with full-range INT inputs, create_timestamp and TIMESTAMP literals under a symbolic time zone, and REAL-to-JSON printing.",
  "C10": "Bounded model checking of the real FollowFileIterator::next over a symbolic growing file: every content of <= 4 bytes x every chunking of the appends x every placement of the reader's polls, decided at once by the solver.",
